@@ -4,6 +4,7 @@ import GoflowModel.Engine.Determinism
 import GoflowModel.Engine.Concurrent
 import GoflowModel.Engine.Redaction
 import GoflowModel.Engine.Migrate
+import GoflowModel.Excellent.Guards
 import GoflowModel.Gen.Consts
 import GoflowModel.Driver.Util
 /-
@@ -15,6 +16,7 @@ import GoflowModel.Driver.Util
   timeparse <hex>                           →  ok h mi s nanos | err
   cqlredact <hex property> <value empty 01>  →  accept | reject-redacted                  (VisitCondition under the urns policy)
   ctxview <redact01> <hex name> <id> <urns> <sendable schemes>  →  default=… urn=… urns=… by=…   (Contact.Context)
+  repeatguard <len> <count> → ok <n> | err ; roundguard <places> → ok | err ; expguard <e> → ok | err ; callrun <e|l…> → ok <calls> <depth>
   limitname <max> <hex name>                →  ok <hex>                                    (Migrate13_6)
   objget <hex names,…> <hex key>            →  ok <index of the property found> | none   (XObject.Get)
   objprops <hex names,…>                    →  ok <hex names sorted>                      (XObject.Properties)
@@ -124,6 +126,17 @@ def handle : List String → Option String
       | .nothing => "nothing"
     let schemes := (us.map (·.scheme)).eraseDups
     some s!"default={dflt} urn={showO cx.urn} urns={",".intercalate (cx.urns.map showV)} by={",".intercalate (schemes.map fun sc => showO (cx.byScheme sc))}"
+  | ["repeatguard", len, count] => do
+    some (match Guards.repeatLen (← len.toNat?) (← parseInt count) with | none => "err" | some n => s!"ok {n}")
+  | ["roundguard", places] => do
+    some (if Guards.placesOk (← parseInt places) then "ok" else "err")
+  | ["expguard", e] => do
+    some (if Guards.exponentOk (← parseInt e) then "ok" else "err")
+  | ["callrun", evs] => do
+    -- e = an anonymous function call is attempted, l = one returns; answers: how many went ahead, final depth
+    let es ← (evs.toList.mapM fun c => if c == 'e' then some Guards.Ev.enter else if c == 'l' then some Guards.Ev.leave else none)
+    let r := Guards.run ⟨0, 0⟩ es
+    some s!"ok {r.2} {r.1.depth}"
   | ["limitname", mx, h] => do
     some ("ok " ++ encL (Migrate.limitName (← mx.toNat?) (← decL h)))
   | ["cacheseq", keys] => do
